@@ -923,11 +923,13 @@ def systematic():
     return out
 
 
-def sizes_family(max_chain=101, max_depth=11):
+def sizes_family(max_chain=101, max_depth=11, max_steps=101):
     """the same constructs at sizes / depths on both sides of plausible bounds (SIZES): set elements, path steps,
     AND / OR chains of comparisons, AND / OR / FOLLOWEDBY chains of observations, nesting depth of parentheses at
-    both levels, and lengths of strings, names, numbers, hex and binary bodies.  Chains and depths are capped
-    (left-deep parse trees: the generated parser and the visitor recurse once per operand / level)."""
+    both levels, and lengths of strings, names, numbers, hex and binary bodies.  Path steps, chains and depths are
+    capped: the generated parser and the visitor recurse once per step / level, and Python's recursion limit is met
+    near 250 path steps and near 64 levels of parentheses (RecursionError; an environment limit, not examined).
+    Up to 11 operands every chain kind is generated, above that the kinds take turns."""
     out = []
     ident = lambda t: ["IdentifierWithoutHyphen", t]      # noqa: E731
     pa = ["path", ident("a"), ident("b"), []]
@@ -938,14 +940,16 @@ def sizes_family(max_chain=101, max_depth=11):
         for i in range(n):
             steps.append(["idx", ["IntPosLiteral", str(i)]] if i % 3 == 2 else
                          ["key", ["StringLiteral", "'k-%d'" % i] if i % 3 == 1 else ident("k%d" % i)])
-        out.append(simple(["eq", ["path", ident("a"), ident("b"), steps], False, ["EQ", "="], ["IntPosLiteral", "1"]]))
+        if n <= max_steps:
+            out.append(simple(["eq", ["path", ident("a"), ident("b"), steps], False, ["EQ", "="], ["IntPosLiteral", "1"]]))
         if 1 <= n <= max_chain:
-            out.append([[[["simple", [[one(i) for i in range(n)]]]]]])                       # AND chain
-            out.append([[[["simple", [[one(i)] for i in range(n)]]]]])                       # OR chain
             obs = [["simple", [[one(i)]]] for i in range(n)]
-            out.append([[obs]])                                                              # observation AND
-            out.append([[[o] for o in obs]])                                                 # observation OR
-            out.append([[[o]] for o in obs])                                                 # FOLLOWEDBY
+            kinds = [[[[["simple", [[one(i) for i in range(n)]]]]]],                         # AND chain
+                     [[[["simple", [[one(i)] for i in range(n)]]]]],                         # OR chain
+                     [[obs]],                                                                # observation AND
+                     [[[o] for o in obs]],                                                   # observation OR
+                     [[[o]] for o in obs]]                                                   # FOLLOWEDBY
+            out += kinds if n <= 11 else [kinds[SIZES.index(n) % len(kinds)]]
         if 1 <= n <= max_depth:
             e = one(0)
             for _ in range(n):
@@ -1141,6 +1145,8 @@ class ProgGen:
         mo = rng.randrange(1, 13)
         d = rng.randrange(1, calendar.monthrange(y, mo)[1] + 1)
         us = rng.choice([0, 0, 1, 500000, 123456, 120000, 999999, 100])
+        if rng.random() < 0.15:       # midnight: what a datetime.date stands for
+            return {"k": "ts", "v": [y, mo, d, 0, 0, 0, 0]}
         return {"k": "ts", "v": [y, mo, d, rng.randrange(24), rng.randrange(60), rng.randrange(60), us]}
 
     NAMES = ["a", "b", "name", "hashes", "SHA-256", "x-y", "value", "src_ref", "_z", "A1", "windows-pebinary-ext",
@@ -1339,16 +1345,15 @@ def prog_systematic():
         ints = [{"k": "int", "v": i} for i in range(n)]
         out.append({"k": "obs", "e": {"k": "cmp", "cls": "In", "lhs": pa, "rhs": {"k": "list", "v": ints}, "neg": False}})
         out.append({"k": "obs", "e": eqr(pc, list(range(n)))})
-        if n >= 1:
+        if 1 <= n <= 101:
             comps = [{"k": "list", "n": "k-%d" % i, "i": i} if i % 3 == 2 else {"k": "basic", "n": ("k-%d" if i % 3 else "k%d") % i}
                      for i in range(n)]
             out.append({"k": "obs", "e": {"k": "cmp", "cls": "Equality", "lhs": {"type": "a", "comps": comps}, "rhs": {"k": "int", "v": 1}, "neg": False}})
         if 2 <= n <= 101:
             cmps = [{"k": "cmp", "cls": "Equality", "lhs": pa, "rhs": {"k": "int", "v": i}, "neg": False} for i in range(n)]
-            out.append({"k": "obs", "e": AND(*cmps)})
-            out.append({"k": "obs", "e": OR(*cmps)})
-            for op in ("AND", "OR", "FOLLOWEDBY"):
-                out.append(cp(op, *[{"k": "obs", "e": x} for x in cmps]))
+            kinds = [{"k": "obs", "e": AND(*cmps)}, {"k": "obs", "e": OR(*cmps)}] + \
+                    [cp(op, *[{"k": "obs", "e": x} for x in cmps]) for op in ("AND", "OR", "FOLLOWEDBY")]
+            out += kinds if n <= 11 else [kinds[(SIZES.index(n) + 2) % len(kinds)]]
         if n in (0, 1, 255, 256):
             out.append({"k": "obs", "e": {"k": "cmp", "cls": "Equality", "lhs": pa, "rhs": {"k": "str", "v": "'\\" * n}, "neg": False}})
             out.append({"k": "obs", "e": eqr(pc, "x" * n)})
